@@ -14,7 +14,7 @@ def run(d):
         os.makedirs(tmp+'/verif'); shutil.copy('known_findings.json',tmp+'/verif/')
         p=subprocess.run(['patch','-p1','-s','--no-backup-if-mismatch'],stdin=open(d+'/patch.diff'),cwd=tmp+'/repo',capture_output=True,text=True)
         if p.returncode!=0: return d,None,{}
-        r=subprocess.run(['bash','-c','. tmsa/env.sh; bin/tmsa check -p ALL -tier quick -repo %s/repo -verif %s/verif'%(tmp,tmp)],capture_output=True,text=True)
+        r=subprocess.run(['bash','-c','. tmsa/env.sh; %s check -p ALL -tier quick -repo %s/repo -verif %s/verif'%(os.environ.get('TMSA_BIN','bin/tmsa'),tmp,tmp)],capture_output=True,text=True)
         det={}
         for l in r.stdout.splitlines():
             m=re.match(r'VIOLATION property=(\S+) .*? rule=(\S+) ',l)
